@@ -74,14 +74,15 @@ type Cluster struct {
 	Events  int
 	Panics  []string
 	// record of executed steps (for deterministic re-execution, C19)
-	Sched    []Step
-	Cl       JCluster
-	Quiet    bool
-	LastEv   *Event
-	Cmp      []string // when non-nil: expected event lines (re-execution compare)
-	CmpDiffs int
-	rtoDraw  func(id uint64, et int) int
-	RTOLog   []int
+	Sched     []Step
+	Cl        JCluster
+	Quiet     bool
+	LastEv    *Event
+	Cmp       []string // when non-nil: expected event lines (re-execution compare)
+	CmpDiffs  int
+	rtoDraw   func(id uint64, et int) int
+	RTOLog    []int
+	quietFrom int // number of recorded steps when the quiet suffix started
 }
 
 // Step is one schedulable action.
@@ -210,6 +211,15 @@ func jDiskOfImage(im *diskImage) JDisk { return jDisk(storageFromImage(im)) }
 // ---- event emission ----------------------------------------------------------
 
 func (c *Cluster) emit(ev *Event, n *AppNode) {
+	if c.Quiet && ev.Act != "Stabilized" {
+		// the fault-free suffix is executed on the real nodes but not logged step by
+		// step; only the final state of every node is (C15)
+		if ev.Panic != "" {
+			c.Quiet = false
+		} else {
+			return
+		}
+	}
 	c.seq++
 	ev.L = c.seq
 	ev.Tr = c.Tr
@@ -539,7 +549,7 @@ func (c *Cluster) Do(s Step) bool {
 			return false
 		}
 		c.record(s)
-		c.emit(&Event{Act: "Stabilized", A: JArgs{K: s.K}}, n)
+		c.emit(&Event{Act: "Stabilized", A: JArgs{K: s.K, Ok: s.Ok}}, n)
 		return true
 	}
 	panic("harness: unknown action " + s.Act)
